@@ -168,8 +168,117 @@ def rule_inclose(c: Ctx) -> RuleResult:
               "the inline parser receives the token's content string" if ok else "the inline parser is called on something other than a content string")
     if n < 20:
         raise AnchorError(f"only {n} functions reachable from ParserInline.parse")
+    # ---- every core rule that walks the block stream visits *all* of it: in inline mode the only inline token is token 0, at
+    #      the end of a document it is the last one - a loop that starts at 1 or stops before the end treats that token differently
+    n_loops = 0
+    for f in sorted(c.cg.api_phase(), key=lambda x: x.qual):
+        if not f.module.rel.startswith("rules_core/"):
+            continue
+        sc = c.tf.scope(f)
+        for lp in own_nodes(f.node):
+            if not isinstance(lp, ast.For):
+                continue
+            how = _stream_iteration(c, f, sc, lp)
+            if how is None:
+                continue
+            n_loops += 1
+            ok, text = how
+            r.add(f"{f.short}|stream-loop|{alpha(f, lp.iter)[:60]}", c.where(f, lp), f.short, f"for {U(lp.target)} in {U(lp.iter)[:60]}",
+                  "discharged" if ok else "violation",
+                  f"visits every token of the block stream ({text})" if ok else
+                  f"does not visit every token of the block stream ({text}): the inline token of inline mode (index 0) or the last block "
+                  f"would be treated differently from the others")
+    if n_loops < 4:
+        raise AnchorError(f"only {n_loops} loops over the block stream found in the core rules")
+    # ---- every inline token is filled by the inline parser itself, on every path through the loop that fills them
+    for cs in c.cg.callers.get(ipar, []):
+        g = cs.caller
+        if not g.module.rel.startswith("rules_core/"):
+            continue
+        lp = g.module.parents.get(cs.node)
+        while lp is not None and not isinstance(lp, (ast.For, ast.While)):
+            lp = g.module.parents.get(lp)
+        if lp is None:
+            continue
+        cfg = c.cfg(g)
+        head = next((x for x in cfg.nodes if x.kind in ("for", "join") and x.ast is lp), None)
+        calls = {x.id for x in cfg.owner(cs.node)}
+        ins = {id(x) for x in ast.walk(lp)}
+        # from the edge on which the token is known to be an inline token, can the next iteration be reached without the call?
+        starts = []
+        for x in cfg.nodes:
+            if x.kind == "test" and x.ast is not None and id(x.ast) in ins and isinstance(x.ast, ast.Compare) and len(x.ast.ops) == 1 \
+                    and isinstance(x.ast.comparators[0], ast.Constant) and x.ast.comparators[0].value == "inline":
+                lab = "T" if isinstance(x.ast.ops[0], ast.Eq) else "F"
+                starts += [s_ for (s_, l_) in x.succ if l_ == lab]
+        seen: set[int] = set()
+        stack = list(starts)
+        bypass = False
+        while stack and head is not None:
+            x = stack.pop()
+            if x.id in seen or x.id in calls:
+                continue
+            if x is head:
+                bypass = True
+                break
+            if x.ast is not None and id(x.ast) not in ins:
+                continue
+            seen.add(x.id)
+            stack.extend(s_ for (s_, l_) in x.succ if l_ not in ("exc", "raise"))
+        if starts:
+            r.add(f"{g.short}|must-parse", c.where(g, cs.node), g.short, U(cs.node)[:80], "violation" if bypass else "discharged",
+                  "an inline token can reach the next iteration without its content having been handed to the inline parser: its children "
+                  "come from somewhere else (a cache, a copy), so equal content no longer means independently parsed, equal children" if bypass else
+                  "every inline token's content is handed to the inline parser on every path")
     r.floor = 30
     return r
+
+
+def _stream_iteration(c: Ctx, f, sc, lp: ast.For):
+    """If the loop ranges over the block stream `<StateCore>.tokens` (directly, by index, or through a local alias): (covers all?, how)."""
+    def is_stream(e: ast.AST) -> bool:
+        if isinstance(e, ast.Attribute) and e.attr == "tokens" and sc.type(e.value) == "StateCore":
+            return True
+        if isinstance(e, ast.Name):
+            defs = [d.value for d in own_nodes(f.node) if isinstance(d, ast.Assign) and any(isinstance(t, ast.Name) and t.id == e.id for t in d.targets)]
+            return len(defs) == 1 and is_stream(defs[0])
+        return False
+    it = lp.iter
+    # for tok in stream / stream[:] / list(stream) / reversed(stream) / enumerate(stream)
+    e = it
+    wrappers = []
+    while True:
+        if isinstance(e, ast.Call) and isinstance(e.func, ast.Name) and e.func.id in ("list", "reversed", "enumerate", "tuple", "iter") and e.args:
+            wrappers.append(e.func.id)
+            e = e.args[0]
+        elif isinstance(e, ast.Subscript) and isinstance(e.slice, ast.Slice):
+            sl = e.slice
+            full = (sl.lower is None or (isinstance(sl.lower, ast.Constant) and sl.lower.value in (0, None))) and sl.upper is None \
+                and (sl.step is None or (isinstance(sl.step, ast.UnaryOp) and U(sl.step) == "-1") or (isinstance(sl.step, ast.Constant) and sl.step.value in (1, None)))
+            if not full and is_stream(e.value):
+                return (False, f"slice `{U(e)}`")
+            e = e.value
+        else:
+            break
+    if is_stream(e):
+        return (True, "iterates the list itself")
+    # for i in range(...len(stream)...)
+    if isinstance(it, ast.Call) and isinstance(it.func, ast.Name) and it.func.id == "reversed" and it.args:
+        it = it.args[0]
+    if isinstance(it, ast.Subscript) and isinstance(it.slice, ast.Slice) and U(it.slice) == "::-1":
+        it = it.value
+    if isinstance(it, ast.Call) and isinstance(it.func, ast.Name) and it.func.id == "range":
+        lens = [x for x in ast.walk(it) if isinstance(x, ast.Call) and isinstance(x.func, ast.Name) and x.func.id == "len" and x.args and is_stream(x.args[0])]
+        if not lens:
+            return None
+        L = U(lens[0])
+        a = [U(x) for x in it.args]
+        if a == [L] or a == ["0", L] or a == ["0", L, "1"]:
+            return (True, f"range over all indices `{U(it)}`")
+        if a == [f"{L} - 1", "-1", "-1"]:
+            return (True, f"range over all indices, backwards `{U(it)}`")
+        return (False, f"`{U(it)}` leaves out an end of the stream")
+    return None
 
 
 # ------------------------------------------------------------------------------------------------ TYPO
@@ -261,6 +370,37 @@ def rule_typo(c: Ctx) -> RuleResult:
               f"replaceAt is called with replacement `{U(rep) if rep is not None else '?'}`, which is neither APOSTROPHE nor options.quotes[i]")
     if ncalls < 3:
         raise AnchorError(f"only {ncalls} replaceAt call sites found")
+    # ---- positions taken from one regex match are translated into the text's frame the same way everywhere (sibling agreement:
+    #      if most uses of `m.start()` add the offset of the searched slice and one does not, one of them is wrong)
+    for f in sorted(funcs, key=lambda x: x.qual):
+        matches = {n.targets[0].id for n in own_nodes(f.node) if isinstance(n, ast.Assign) and len(n.targets) == 1 and isinstance(n.targets[0], ast.Name)
+                   and isinstance(n.value, ast.Call) and isinstance(n.value.func, ast.Attribute) and n.value.func.attr in ("search", "match", "fullmatch")}
+        for mv in sorted(matches):
+            uses: list[tuple[ast.AST, frozenset[str]]] = []
+            for x in own_nodes(f.node):
+                if isinstance(x, ast.Call) and isinstance(x.func, ast.Attribute) and x.func.attr in ("start", "end") \
+                        and isinstance(x.func.value, ast.Name) and x.func.value.id == mv:
+                    top: ast.AST = x
+                    q = f.module.parents.get(top)
+                    while isinstance(q, ast.BinOp) and isinstance(q.op, (ast.Add, ast.Sub)):
+                        top, q = q, f.module.parents.get(q)
+                    terms = frozenset(U(y) for y in ast.walk(top) if isinstance(y, (ast.Name, ast.Attribute)) and isinstance(getattr(y, "ctx", None), ast.Load)
+                                      and not (isinstance(y, ast.Name) and y.id == mv) and not (isinstance(y, ast.Attribute) and y is x.func)
+                                      and not any(isinstance(z, ast.Attribute) and z is not y and any(w is y for w in ast.walk(z)) for z in ast.walk(top)))
+                    uses.append((top, terms))
+            if len(uses) < 2:
+                continue
+            from collections import Counter
+            cnt = Counter(t for (_, t) in uses)
+            major, nmaj = cnt.most_common(1)[0]
+            for (top, t) in uses:
+                if t != major:
+                    r.add(f"{f.short}|matchpos|{alpha(f, top)[:50]}", c.where(f, top), f.short, U(top)[:70], "violation",
+                          f"a position of the match `{mv}` is translated with {sorted(t) or 'no offset'} here but with {sorted(major) or 'no offset'} at "
+                          f"{nmaj} other places in the function: one of the two frames is wrong, text would be rewritten at the wrong index")
+            if len(cnt) == 1:
+                r.add(f"{f.short}|matchpos|{mv}", c.where(f, uses[0][0]), f.short, f"{mv}.start() / end()", "discharged",
+                      f"all {len(uses)} positions taken from the match are translated alike ({sorted(major) or 'no offset'})")
     r.floor = 12
     return r
 
